@@ -436,6 +436,11 @@ func (s *seqRunner[V]) digest(o *pobj) string { return s.digestSeq(o) }
 
 // boundary-biased choices
 func (s *seqRunner[V]) genIndex(n int) int {
+	if s.hintIndex != nil {
+		x := *s.hintIndex
+		s.hintIndex = nil
+		return x
+	}
 	cands := []int{-n - 1, -n, -1, 0, 1, n, n + 1, 2, -2, n - 1, -(n - 1)}
 	if s.r.chance(6, 10) && n > 0 {
 		x := 1 + s.r.intn(n)
@@ -474,7 +479,7 @@ func (s *seqRunner[V]) genVals(n int) []V {
 
 // a value that often already occurs in the given object (to hit duplicates and members)
 func (s *seqRunner[V]) genValNear(i int) V {
-	if s.forceVal != nil && s.r.chance(3, 4) {
+	if s.forceVal != nil {
 		return *s.forceVal
 	}
 	if i >= 0 && s.r.chance(1, 2) {
@@ -496,6 +501,7 @@ func (s *seqRunner[V]) full() bool { return len(s.pool) >= s.maxPool }
 // doSeqOp generates and executes one op of the named family; false if not applicable now.
 func (s *seqRunner[V]) doSeqOp(d digester, name string) bool {
 	r := s.r
+	s.lastPicks = nil
 	pick := s.pickObj
 	switch name {
 	case "NewSlice":
@@ -1307,6 +1313,7 @@ func (a *assocRunner[V]) doOp(name string) bool {
 	s := a.seqRunner
 	r := s.r
 	s.ownAssoc = true
+	s.lastPicks = nil
 	defer func() { s.ownAssoc = false }()
 	pick := s.pickObj
 	switch name {
